@@ -5,7 +5,7 @@ from framework import Func
 import deriv_ref as R
 import ecref
 from props.C03 import (CLS, FUEL, HARD, obs, forced_hmac, hm_of, rb, rand_seed, F1_SEED, F1_PATH, F1_EXPECTED,
-                       BOUNDARY_IDX, mock_cases)
+                       BOUNDARY_IDX, mock_cases, is_f1)
 
 from bip_utils import (Bip32KeyData, Bip32Path, Bip32KeyError, ElectrumV1, ElectrumV2Standard, Bip32Slip10Secp256k1,
                        P2PKHAddrEncoder, CoinsConf)
@@ -283,46 +283,44 @@ def _node_of_start(curve, st, hm):
     return R.Node(curve, None, st[1], st[4], st[2], st[3], st[5])
 
 
-def _ops_need_retry(curve, x, ops, hm):
+def _steps(ops):
+    st = []
     for op in ops:
-        if x is None:
-            return False
-        if op[0] == 1:
-            x = x.neuter()
-            continue
-        idxs = [op[1]] if op[0] == 0 else (list(op[2]) if op[0] == 2 else [])
-        for i in idxs:
-            if i > 0xFFFFFFFF or (x.priv is None and i >= HARD):
-                return False
-            if R.retry_needed(curve, x.priv, x.pubc, x.chain, i, hm):
-                return True
-            x = x.child(i, hm)
-            if x is None:
-                return False
-    return False
+        if op[0] == 0:
+            st.append(("child", op[1]))
+        elif op[0] == 1:
+            st.append(("neuter",))
+        elif op[0] == 2:
+            st.extend(("child", i) for i in op[2])
+    return st
 
 
 def f1_match(fn, args, record):
-    """Same class as C03's F1: an ECDSA child whose first HMAC left half is >= n or whose sum vanishes."""
+    """Same class as C03's F1: an ECDSA child whose first HMAC left half is >= n or whose sum vanishes, on which the
+    implementation behaves as the code without the re-hash branch (see props/C03.py: is_f1)."""
     try:
         if fn == "script":
             curve, mock, st, ops = args
-            if curve not in (0, 1):
+            if curve not in (0, 1) or any(op[0] == 3 for op in ops):
                 return False
             hm = hm_of(mock)
-            return _ops_need_retry(curve, _node_of_start(curve, st, hm), ops, hm)
+            return is_f1(_node_of_start(curve, st, hm), _steps(ops), hm, "script", args, FUNCS)
         if fn == "commute":
             curve, st, prefix, path = args
             if curve not in (0, 1):
                 return False
-            ops = [[2, 0, list(prefix)], [1], [2, 0, list(path)]]
-            return _ops_need_retry(curve, _node_of_start(curve, st, R.hmac512), ops, R.hmac512)
+            steps = [("child", i) for i in prefix] + [("neuter",)] + [("child", i) for i in path]
+            return is_f1(_node_of_start(curve, st, R.hmac512), steps, R.hmac512, "commute", args, FUNCS)
     except Exception:  # noqa
         return False
     return False
 
 
 def f1_match_replay():
+    from props.C03 import f1_match_replay as c03_replay
+    r = c03_replay()
+    if r:
+        return r
     p = CLS[1].FromSeed(F1_SEED).DerivePath(Bip32Path(F1_PATH[:1]))
     p.ConvertToPublic()
     got = p.ChildKey(F1_PATH[1]).PublicKey().RawCompressed().ToHex()
@@ -365,6 +363,15 @@ def rand_start(rng, curve):
     index, pfp = (0, bytes(4)) if depth == 0 else (rng.randrange(1 << 32), rb(rng, 4))
     node = R.Node(curve, kb, R.pub_bytes(curve, kb), rb(rng, 32), depth, index, pfp)
     return [3, R.xprv_string(node)]
+
+
+def rand_xpub_start(rng, curve):
+    """A public-only start object given as an extended public key string."""
+    n = R.WEIER[curve].n
+    kb = rng.randrange(1, n).to_bytes(32, "big")
+    depth = rng.choice([0, 1, 3, 255])
+    index, pfp = (0, bytes(4)) if depth == 0 else (rng.randrange(1 << 32), rb(rng, 4))
+    return [3, R.xpub_string(R.Node(curve, kb, R.pub_bytes(curve, kb), rb(rng, 32), depth, index, pfp))]
 
 
 def generate(ctx):
@@ -443,6 +450,8 @@ def generate(ctx):
                     ops.append([0, HARD + rng.randrange(HARD)])
             c2 = curve if rng.randrange(5) else rng.choice([2, 3])
             ctx.run("script", [c2, [], rand_start(rng, c2) if c2 < 2 else [0, rand_seed(rng)], ops], "rand-history")
+            if k % 4 == 0:
+                ctx.run("script", [curve, [], rand_xpub_start(rng, curve), ops], "rand-history-xpub")
         if k % 3 == 0:
             kb = rng.randrange(1, R.WEIER[0].n).to_bytes(32, "big")
             change, addr = rng.choice([0, 1, rng.randrange(1 << 32)]), rng.choice([0, rng.randrange(1000), rng.randrange(1 << 32)])
